@@ -22,6 +22,8 @@ const (
 
 type stagedProp interface {
 	CommitStaged()
+	RollbackStaged()
+	NotifyCommitted()
 }
 
 type StagedConfigProp interface {
@@ -56,10 +58,11 @@ func setPropsFromMapRecursive(val reflect.Value, updates map[string]any) (staged
 				// If the value is a map, it's a nested update
 				if nestedUpdates, ok := value.(map[string]any); ok {
 					nestedStaged, err := setPropsFromMapRecursive(fieldVal.Addr(), nestedUpdates)
-					if err != nil {
-						return nil, err
-					}
 					stagedProps = append(stagedProps, nestedStaged...)
+					if err != nil {
+						// Also return what has been staged so far, so that the caller can discard it
+						return stagedProps, err
+					}
 					break
 				}
 
@@ -69,11 +72,11 @@ func setPropsFromMapRecursive(val reflect.Value, updates map[string]any) (staged
 					if prop, ok := fieldAddr.Interface().(StagedConfigProp); ok {
 						valueBytes, err := json.Marshal(value)
 						if err != nil {
-							return nil, err
+							return stagedProps, err
 						}
 
 						if err := prop.UnmarshalJSONStaged(valueBytes); err != nil {
-							return nil, err
+							return stagedProps, err
 						}
 
 						stagedProps = append(stagedProps, prop)
@@ -105,8 +108,18 @@ func UpdatePartialFromConfig(cfg *Config, updates map[string]any) (UpdateStatus,
 
 	slog.Debug("Setting properties from JSON map...", "updates", updates)
 	stagedProps, err := setPropsFromMapRecursive(reflect.ValueOf(cfg), updates)
+
+	// A rejected update must leave everything as it was: nothing has been told to the
+	// subscribers yet, so undoing the staged/committed values is all there is to do.
+	rollback := func() {
+		for _, prop := range stagedProps {
+			prop.RollbackStaged()
+		}
+	}
+
 	if err != nil {
 		slog.Error("Failed to set properties from map", "error", err)
+		rollback()
 		return UpdateStatusFailed, fmt.Errorf("%w: %v", ErrUpdateFailed, err)
 	}
 
@@ -118,12 +131,19 @@ func UpdatePartialFromConfig(cfg *Config, updates map[string]any) (UpdateStatus,
 
 	if err := cfg.verify(); err != nil {
 		slog.Error("Updated config failed verification", "error", err)
+		rollback()
 		return UpdateStatusFailed, fmt.Errorf("%w: %v", ErrUpdateFailed, err)
 	}
 
 	if err := cfg.persist(); err != nil {
 		slog.Error("Failed to persist updated config", "error", err)
+		rollback()
 		return UpdateStatusFailed, fmt.Errorf("%w: %v", ErrUpdateFailed, err)
+	}
+
+	// Only now do the running components get to see the new values
+	for _, prop := range stagedProps {
+		prop.NotifyCommitted()
 	}
 
 	status := UpdateStatusSuccess
